@@ -183,6 +183,10 @@ def run_case(case):
             kw["on_reconnect"] = mk("on_reconnect")
         app = websocket.WebSocketApp(("wss" if case.get("secure") else "ws") + "://c15.test/", **kw)
         rk = {"reconnect": interval}
+        if case.get("via_global"):
+            # the interval is set for the whole process with websocket.setReconnect() instead of the run_forever argument
+            websocket.setReconnect(interval)
+            rk = {}
         if ping:
             rk.update(ping_interval=ping[0], ping_timeout=ping[1])
         closer = None
@@ -211,6 +215,8 @@ def run_case(case):
             main = sched.run(body)
         except simkit.HarnessStuck as e:
             raise HarnessError(str(e))
+        finally:
+            websocket.setReconnect(0)
     tag = "external" if ext else "builtin"
     if sched.hang:
         obs.fail(f"{tag}|run-does-not-end|{sched.hang[0]}", f"{sched.hang[1]}; attempts={[a['kind'] for a in attempts]} close_at={close_at}")
@@ -328,7 +334,7 @@ def _cls(obs, case, natt):
     nt = natt >= 2 and fails >= 1 and succ >= 1
     obs.cls = ("external" if case.get("external") else "builtin", f"attempts:{min(natt, 6)}", f"stop:{'app-close' if case.get('close_at') is not None else kinds[-1]}",
                f"on_reconnect:{int(case.get('on_reconnect', True))}", f"ping:{int(bool(case.get('ping')))}", f"tls:{int(bool(case.get('secure')))}") + tuple(sorted({f"kind:{k}" for k in kinds}))
-    obs.nt = repr((case["attempts"], case["interval"], case.get("external"), case.get("close_at"), case.get("on_reconnect", True), case.get("ping"), case.get("choices"), case.get("secure"))) if nt else None
+    obs.nt = repr((case["attempts"], case["interval"], case.get("external"), case.get("close_at"), case.get("on_reconnect", True), case.get("ping"), case.get("choices"), case.get("secure"), case.get("via_global"))) if nt else None
     return obs
 
 
@@ -342,7 +348,7 @@ def seq_cases():
                 for stop in ("server-close", "app-close"):
                     att = [{"kind": k, "after": 1.0 + 0.5 * i} for i, k in enumerate(seq)]
                     iv = (0.5, 1, 2.5, 5)[(n + len(seq[0])) % 4]
-                    c = {"attempts": att, "interval": iv, "external": ext, "on_reconnect": (n + len(stop)) % 2 == 0}
+                    c = {"attempts": att, "interval": iv, "external": ext, "on_reconnect": (n + len(stop)) % 2 == 0, "via_global": (len(seq[0]) + len(seq[-1]) + len(stop)) % 3 == 0}
                     if stop == "server-close":
                         att.append({"kind": "server-close", "after": 2.0})
                     else:
@@ -381,7 +387,7 @@ def cases(draw):
         if k == "reject":
             a["status"] = draw(st.sampled_from([400, 404, 500, 503]))
         att.append(a)
-    c = {"attempts": att, "interval": interval, "external": ext, "on_reconnect": draw(st.booleans()), "ping": ping, "run_for": 200.0,
+    c = {"attempts": att, "interval": interval, "external": ext, "on_reconnect": draw(st.booleans()), "ping": ping, "run_for": 200.0, "via_global": draw(st.integers(0, 3)) == 0,
          "secure": draw(st.integers(0, 3)) == 0}
     stop = draw(st.sampled_from(["server-close", "app-close", "app-close-any"]))
     if stop == "server-close":
